@@ -229,7 +229,14 @@ func c14R2(c *Ctx, r *Report, rule string) {
 			want := int64(e.Value.(float64))
 			found := false
 			var seen []int64
-			for _, b := range fn.Blocks {
+			// the matcher and the helpers of its package it calls
+			var blocks []*ssa.BasicBlock
+			for _, h := range sortedFuncs(c.reachSync(fn)) {
+				if h == fn || (h.Pkg == fn.Pkg && h.Parent() == nil && !token.IsExported(h.Name())) {
+					blocks = append(blocks, h.Blocks...)
+				}
+			}
+			for _, b := range blocks {
 				for _, in := range b.Instrs {
 					bo, ok := in.(*ssa.BinOp)
 					if !ok || (bo.Op != token.NEQ && bo.Op != token.EQL) {
